@@ -35,7 +35,9 @@ func cmdSelftest(args []string) int {
 	bin := build(scratch, "")
 	start := time.Now()
 	// 1. rewriter soundness
-	a := append([]string{"test", "-vet=off", "-count=1", "-overlay", filepath.Join(scratch, "ov", "overlay.json")}, repoTestPkgs...)
+	a := append([]string{"test", "-vet=off", "-count=1"}, modArgs...)
+	a = append(a, "-overlay", filepath.Join(scratch, "ov", "overlay.json"))
+	a = append(a, repoTestPkgs...)
 	if out, err := run(simDir, goEnv(), goBin, a...); err != nil {
 		trouble("the repository's tests fail against the instrumented overlay in pass-through mode:\n%s", tail(out, 80))
 	}
